@@ -36,6 +36,8 @@ abbrev T_AAAA : Nat := 28
 abbrev T_DS : Nat := 43
 abbrev T_ANY : Nat := 255
 abbrev T_ANAME : Nat := 65305
+abbrev T_SRV : Nat := 33
+abbrev T_AXFR : Nat := 252
 
 /-- `chase_cnames::MAX_CNAME_DEPTH` -/
 abbrev MAX_CNAME_DEPTH : Nat := 8
@@ -162,9 +164,16 @@ def chaseCnames (z : Zone) (name : LName) (first : RRset) (qtype : Nat) : List R
 
 /-! ### additional section -/
 
-/-- `maybe_next_name` (NS and MX arms) -/
+/-- the (record set type, query type) pairs for which `maybe_next_name` continues: NS, MX, SRV
+for their own type; ANAME for A, AAAA and ANAME queries -/
+def nextNameApplies (rrType qtype : Nat) : Bool :=
+  (rrType == qtype && (qtype == T_NS || qtype == T_MX || qtype == T_SRV)) ||
+  (rrType == T_ANAME && (qtype == T_A || qtype == T_AAAA || qtype == T_ANAME))
+
+/-- `maybe_next_name`: the name embedded in the first record (the rdata variant always matches
+the RRset type in a store built by `upsert`) -/
 def maybeNextName (rr : RRset) (qtype : Nat) : Option LName :=
-  if rr.type == qtype && (qtype == T_NS || qtype == T_MX) then
+  if nextNameApplies rr.type qtype then
     rr.rdatas.head?.bind (·.target)
   else none
 
@@ -192,7 +201,9 @@ def addFuel (z : Zone) : Nat := (targets z).length + 2
 /-- `additional_search` -/
 def additionalSearch (z : Zone) (origName : LName) (origType : Nat) (next : LName) :
     Option (List RRset) :=
-  let qts := if origType == T_NS || origType == T_MX then [T_A, T_AAAA] else [origType]
+  let qts :=
+    if origType == T_ANAME || origType == T_NS || origType == T_MX || origType == T_SRV then [T_A, T_AAAA]
+    else [origType]
   let adds := qts.foldl (fun adds qt =>
     addLoop z qt (addFuel z) (if qt == origType then [origName] else []) next adds) []
   if adds.isEmpty then none else some adds
